@@ -297,6 +297,8 @@ class SpooledBytesIO(SpooledIOBase):
 
     def read(self, n=-1):
         self._checkClosed()
+        if n is not None and n < 0:
+            n = -1  # a file object accepts no other negative size
         return self.buffer.read(n)
 
     def write(self, s):
